@@ -180,6 +180,9 @@ func (s *Store) Delete(ctx context.Context, target ocispec.Descriptor) error {
 			deleteQueue = append(deleteQueue, desc)
 		}
 	}
+	// referrers of deleted manifests that wait until no surviving manifest
+	// (e.g. an index) lists them any more
+	var pending []ocispec.Descriptor
 	for len(deleteQueue) > 0 {
 		head := deleteQueue[0]
 		deleteQueue = deleteQueue[1:]
@@ -193,7 +196,7 @@ func (s *Store) Delete(ctx context.Context, target ocispec.Descriptor) error {
 			for _, referrer := range referrers {
 				// do not delete existing tagged manifests
 				if !s.isTagged(referrer) {
-					enqueue(referrer)
+					pending = append(pending, referrer)
 				}
 			}
 		}
@@ -220,9 +223,54 @@ func (s *Store) Delete(ctx context.Context, target ocispec.Descriptor) error {
 				}
 			}
 		}
+
+		// queue the pending referrers whose remaining predecessors are all
+		// being deleted or are referrers of their own
+		var ready, waiting []ocispec.Descriptor
+		for _, referrer := range pending {
+			if queued.Contains(descriptor.FromOCI(referrer)) {
+				continue
+			}
+			held, err := s.heldBySurvivor(ctx, referrer, queued)
+			if err != nil {
+				return err
+			}
+			if held {
+				waiting = append(waiting, referrer)
+			} else {
+				ready = append(ready, referrer)
+			}
+		}
+		for _, referrer := range ready {
+			enqueue(referrer)
+		}
+		pending = waiting
 	}
 
 	return nil
+}
+
+// heldBySurvivor reports whether node has a predecessor that is not queued for
+// deletion and links to node other than as its subject. A referrer does not keep
+// its subject alive, every other link does.
+func (s *Store) heldBySurvivor(ctx context.Context, node ocispec.Descriptor, queued set.Set[descriptor.Descriptor]) (bool, error) {
+	predecessors, err := s.graph.Predecessors(ctx, node)
+	if err != nil {
+		return false, err
+	}
+	for _, predecessor := range predecessors {
+		if queued.Contains(descriptor.FromOCI(predecessor)) {
+			continue
+		}
+		subject, err := manifestutil.Subject(ctx, s.storage, predecessor)
+		if err != nil {
+			return false, err
+		}
+		if subject == nil || !content.Equal(*subject, node) {
+			return true, nil
+		}
+	}
+	return false, nil
 }
 
 // delete deletes one node and returns the dangling nodes caused by the delete.
